@@ -14,7 +14,11 @@
     knows how many bytes were taken: arguments (as bytes), eof/err status and the
     unread remainder are compared; InjectArgs results are compared on a data scope.
 (T) random long inputs (multi-byte UTF-8, 0xFF, quotes, heredoc introducers) for
-    totality; pairs of rendered commands read back-to-back from ONE reader."""
+    totality; pairs of rendered commands read back-to-back from ONE reader.
+    The terminal's entry point that reads ONE command from a caller's reader
+    (termexec.RunCommandFromReader) is driven with scripts of 2-3 commands (quoted, with a
+    heredoc argument, longer than 4096 bytes) through readers without ReadByte: every command
+    runs, in order, and the reader is left at the next command."""
 import json
 import vlib
 
@@ -45,6 +49,11 @@ def run(ctx):
         vlib.report_case_failures(ctx, m, name)
         if m['executed'] == 0:
             raise vlib.Infra('nothing executed for ' + name)
+    # the terminal's own entry point for ONE command from a caller's reader
+    we = ctx.vh(['argentry'], timeout=600)
+    ctx.cov['replay'].append(dict(what='termexec.RunCommandFromReader: scripts of 2-3 commands through readers without ReadByte (all at once, bytewise) and a strings.Reader', executed=we['executed'], failures=we['failures_by_key']))
+    ctx.cov['evaluations'] += we['executed']
+    vlib.report_case_failures(ctx, we, 'entry point')
     ctx.cov['exhaustive'] = True
     m = ctx.vh(['argrandom', '--n', '20000' if q else '400000', '--seed', str(ctx.seed)])
     ctx.cov['replay'].append(dict(what='random inputs and rendered command pairs', executed=m['executed'], failures=m['failures_by_key']))
